@@ -288,6 +288,11 @@ func (e *Engine) intrinsic(s *State, f *Frame, call *ssa.Call, fn *ssa.Function,
 	case "hash/crc32.Checksum":
 		cells := e.bytesOfSlice(s, args[0])
 		e.Stubs["crc32: uninterpreted per-byte fold"] = true
+		if len(cells) == 0 {
+			// the checksum of no bytes is 0 for every table: the one value of the fold that is known
+			set(BVInt(0, 32))
+			return true
+		}
 		st := hashFold("crc32", BVInt(0xc3c, 64), cells)
 		set(UF("verif.crc32.out", BV(32), st))
 		return true
